@@ -33,7 +33,7 @@ def _text(rng, allow_ws):
     return "".join(out)
 
 def generate(rng, tier):
-    nx, nh = (500, 700) if tier == "quick" else (8000, 12000)
+    nx, nh = (500, 700) if tier == "quick" else (25000, 35000)
     cases = [{"kind": "x", "s": "a\rb", "family": "cr-witness"}, {"kind": "x", "s": "a\tb", "family": "tab-witness"}]
     for _ in range(nx):
         ws = rng.random() < 0.25
